@@ -61,7 +61,7 @@ def luColumn (n j : Nat) (lu : List α) : List α :=
 /-- first row `p ≥ j` of maximal `|lu[p,j]|` (strict `>` keeps the first maximum). -/
 def luPivot (n j : Nat) (lu : List α) : Nat :=
   (List.range' (j + 1) (n - (j + 1))).foldl
-    (fun p i => if Transc.abs (rd lu (i * n + j)) < Transc.abs (rd lu (p * n + j)) then i else p) j
+    (fun p i => if Transc.abs (rd lu (p * n + j)) < Transc.abs (rd lu (i * n + j)) then i else p) j
 
 /-- `for k in 0..n { lu.swap(p*n+k, j*n+k) }`. -/
 def swapRows (n p j : Nat) (lu : List α) : List α :=
